@@ -23,15 +23,17 @@ PROPS = {
                 assumptions=KANI_ASSUME,
                 not_under_contract=['regex engine (fancy_regex) - trusted', 'string order beyond the bounded unit', 'list/map equality beyond the bounded unit'],
                 explanation=''),
-    'C01': dict(level='proof', vgroups=['eval', 'eval_blocks', 'eval_disp'],
-                kunits=['U-cnf', 'U-unary', 'U-idx', 'U-cmp-int', 'U-cmp-float', 'U-cmp-char-null-bool', 'U-cmp-types', 'U-within', 'U-binflip'],
+    'C01': dict(level='proof', vgroups=['eval', 'eval_blocks', 'eval_disp', 'index'],
+                kunits=['U-cnf', 'U-cmp-int', 'U-cmp-float', 'U-cmp-char-null-bool', 'U-cmp-types', 'U-within'],
+                kunits_quick=['U-cnf', 'U-cmp-int', 'U-within'],
                 assumptions=EVAL_ASSUME + KANI_ASSUME,
                 level_text='whole-interpreter correctness is NOT claimed. Decided by contracts: clause = all/some aggregation of per-value results with the right polarity (U-gac), binary per-value layer (U-binop), named-rule / when / rule / file composition (Verus, unbounded); CNF combinator, unary truth tables, index retrieval, scalar comparison kernel, range membership, operator-level flip (Kani; complete over scalar domains, otherwise bounded as stated)',
                 level_note='query traversal (keys, *, [*], filters, variables, key-case converters) and list flattening in operators.rs are NOT under contract: a change confined to query_retrieval_with_converter is not detected by this check',
                 not_under_contract=['query_retrieval_with_converter', 'operators.rs list-valued Eq/In', 'eval_guard_block_clause', 'eval_type_block_clause', 'scopes (resolve_variable, rule_status)', 'parser'],
                 explanation=''),
-    'C08': dict(level='proof', vgroups=['eval', 'eval_blocks', 'eval_disp', 'exit', 'status', 'merge', 'report'],
-                kunits=['U-idx', 'U-substr', 'U-call', 'U-cnf', 'U-unary', 'U-rec', 'U-count', 'U-conv', 'U-join', 'U-expect'],
+    'C08': dict(level='proof', vgroups=['eval', 'eval_blocks', 'eval_disp', 'index', 'tracker', 'validate', 'exit', 'status', 'merge', 'report'],
+                kunits=['U-substr', 'U-call', 'U-cnf', 'U-count', 'U-conv', 'U-join', 'U-expect', 'U-xr'],
+                kunits_quick=['U-substr', 'U-call'],
                 assumptions=EVAL_ASSUME + KANI_ASSUME,
                 level_text='panic-freedom of every function under contract on its whole precondition-free input domain: Verus proves every unreachable!(), arithmetic and index operation of the extracted functions safe; Kani checks every panic / overflow / index / slice site reachable from the harnesses (complete in the integer arguments, bounded in container sizes)',
                 level_note='parser totality, libyaml loader (unsafe/FFI), reporters, recursion depth / termination are NOT covered',
@@ -42,10 +44,10 @@ PROPS = {
                 level_note='agreement of the test and validate loaders (serde_yaml vs libyaml), reporting of rules without expectation, and agreement of renderers are NOT decided',
                 not_under_contract=['StructuredTestReporter::evaluate / generic reporter (I/O)', 'test vs validate data loading', 'renderers'],
                 explanation='Bounded Kani proof of get_status_result (<= 3 records per rule name, all statuses, all expectations) against the parenthesis of the property statement; TestResult::get_exit_code bounded (<= 2 cases x <= 2 failed rules); test::get_exit_code complete (Verus unbounded + Kani). Both commands call the same eval_rules_file, which is visible in the source but not expressible as a function contract.'),
-    'C02': dict(level='proof', level_text='Verus proves, for all inputs and all lengths, that every record closed by rule/when/file/named-clause/clause evaluation carries the status returned to the caller and that this status is the documented function of the children statuses (record-tree ghost model)', level_note='assumed: EvalContext trait contract, CNF combinator contract (bounded Kani unit), query engine; termination not proved', vgroups=['eval', 'eval_blocks', 'eval_disp'], kunits=['U-cnf', 'U-rec'], assumptions=EVAL_ASSUME,
+    'C02': dict(level='proof', level_text='Verus proves, for all inputs and all lengths, that every record closed by rule/when/file/named-clause/clause evaluation carries the status returned to the caller and that this status is the documented function of the children statuses (record-tree ghost model)', level_note='assumed: EvalContext trait contract, CNF combinator contract (bounded Kani unit), query engine; termination not proved', vgroups=['eval', 'eval_blocks', 'eval_disp', 'tracker'], kunits=['U-cnf'], assumptions=EVAL_ASSUME,
                 not_under_contract=['query_retrieval_with_converter (Filter records)', 'RootScope::rule_status', 'RecordTracker (bounded only)'],
                 explanation=''),
-    'C03': dict(level='proof', level_text='Verus proves that the polarity reaching the per-value layer is operator-not XOR prefix-not on both the unary and the binary path of the real eval_guard_access_clause, and the named-rule negation table', level_note='assumed: unary_operation/binary_operation depend on the polarity bit as contracted (bounded Kani units)', vgroups=['eval'], kunits=['U-unary', 'U-binflip'], assumptions=EVAL_ASSUME,
+    'C03': dict(level='proof', level_text='Verus proves that the polarity reaching the per-value layer is operator-not XOR prefix-not on both the unary and the binary path of the real eval_guard_access_clause, and the named-rule negation table', level_note='assumed: unary_operation/binary_operation depend on the polarity bit as contracted (bounded Kani units)', vgroups=['eval'], kunits=[], assumptions=EVAL_ASSUME,
                 not_under_contract=['operators.rs list-valued In/Eq flip'], explanation=''),
     'C04': dict(level='proof', vgroups=['status', 'eval'], kunits=['U-cnf'], assumptions=EVAL_ASSUME,
                 level_text='order/repetition invariance is proved as lemmas over the aggregation spec functions (permutation = equal multisets, repetition = insertion of a copy; unbounded), composed with the conformance of the real aggregators to those spec functions (Verus unbounded for rule list / rule / when; Kani bounded for the CNF combinator)',
